@@ -202,6 +202,13 @@ pub fn exec(m: &mut CMap3<f64>, o: &Op) -> Res {
     r.unwrap_or(Res::Panic)
 }
 
+thread_local! {
+    /// cell lengths used by `build3` for grids; `dump3` divides the coordinates by them (exact: powers of two),
+    /// so that the observations of a scaled grid read like those of the unit grid when every vertex is at its
+    /// lattice point (C12: the three axes must not be confused)
+    pub static SCALE: std::cell::Cell<[f64; 3]> = const { std::cell::Cell::new([1.0, 1.0, 1.0]) };
+}
+
 pub fn build3(kind: u32, a: u32, b: u32, c: u32, mask: u32) -> CMap3<f64> {
     let mut bd = if kind == 0 {
         CMapBuilder::<3, f64>::from_n_darts(a as usize)
@@ -209,7 +216,7 @@ pub fn build3(kind: u32, a: u32, b: u32, c: u32, mask: u32) -> CMap3<f64> {
         CMapBuilder::<3, f64>::from_grid_descriptor(
             honeycomb_core::cmap::GridDescriptor::<3, f64>::default()
                 .n_cells([a as usize, b as usize, c as usize])
-                .len_per_cell([1.0, 1.0, 1.0]),
+                .len_per_cell(SCALE.with(std::cell::Cell::get)),
         )
     };
     if mask & 1 != 0 {
@@ -251,7 +258,10 @@ pub fn dump3(m: &CMap3<f64>, mask: u32, out: &mut String) {
         )
         .unwrap();
         match safe_read(|| m.force_read_vertex(d)) {
-            Some(v) => write!(out, " 1 {} {} {}", ftok(v.x()), ftok(v.y()), ftok(v.z())).unwrap(),
+            Some(v) => {
+                let sc = SCALE.with(std::cell::Cell::get);
+                write!(out, " 1 {} {} {}", ftok(v.x() / sc[0]), ftok(v.y() / sc[1]), ftok(v.z() / sc[2])).unwrap();
+            }
             None => out.push_str(" 0"),
         }
         for k in 0..N_KINDS {
@@ -1127,6 +1137,11 @@ pub fn main() {
                     for c in 1..=maxn as u32 {
                         let mut it = vec![Op::Query].into_iter();
                         run_case(&format!("h{id}"), 0, (1, a, b, c), &mut |_, _| it.next(), &mut out);
+                        // the same box with three different cell lengths (dumped in units of the cell lengths)
+                        SCALE.with(|s| s.set([2.0, 0.5, 4.0]));
+                        let mut it = vec![Op::Query].into_iter();
+                        run_case(&format!("hs{id}"), 0, (1, a, b, c), &mut |_, _| it.next(), &mut out);
+                        SCALE.with(|s| s.set([1.0, 1.0, 1.0]));
                         id += 1;
                     }
                 }
